@@ -300,6 +300,16 @@ def _enumerate(it, fr, a, k):
     return GenObj(gen(), "enumerate")
 
 
+@builtin("itertools.islice")
+def _islice(it, fr, a, k):
+    import itertools as _it
+    if any(isinstance(x, SV) for x in a[1:]):
+        raise Unsupported("islice with symbolic bounds")
+    if isinstance(a[0], SymStream):
+        raise Unsupported("islice over an abstract stream")
+    return GenObj(_it.islice(it.iterate(a[0]), *a[1:]), "islice")
+
+
 @builtin("zip")
 def _zip(it, fr, a, k):
     def gen():
@@ -563,7 +573,17 @@ def method_of(it, v, name):
             if name.startswith("__") or True:
                 return None
         return None
+    if name in _CONTAINER_MUTATORS and isinstance(v, (PyList, PyDict, PySet)):
+        def mutating(it2, fr, a, k, _fn=fn):
+            it2.ctx.effect("mutate", (v, name))
+            return _fn(it2, v, a, k)
+        return Builtin(f"{type(v).__name__}.{name}", mutating)
     return Builtin(f"{type(v).__name__}.{name}", lambda it2, fr, a, k, _fn=fn: _fn(it2, v, a, k))
+
+
+_CONTAINER_MUTATORS = {"append", "extend", "insert", "pop", "remove", "clear", "sort", "reverse", "add", "update", "discard",
+                       "setdefault", "popitem", "difference_update", "intersection_update", "symmetric_difference_update",
+                       "__setitem__", "__delitem__", "__iadd__", "__ior__"}
 
 
 def _l_append(it, v, a, k):
